@@ -61,7 +61,7 @@ var floatSpecials = []float64{
 func genFloat() *rapid.Generator[float64] {
 	return rapid.OneOf(rapid.Float64(), rapid.SampledFrom(floatSpecials),
 		rapid.Map(rapid.Uint64(), func(b uint64) float64 { return math.Float64frombits(b) }),
-		rapid.Map(genInt64(), func(n int64) float64 { return float64(n) }),       // whole numbers of every magnitude
+		rapid.Map(genInt64(), func(n int64) float64 { return float64(n) }),                  // whole numbers of every magnitude
 		rapid.Map(rapid.IntRange(-80, 80), func(e int) float64 { return math.Ldexp(1, e) }), // powers of two
 		rapid.Map(rapid.IntRange(-30, 30), func(e int) float64 { return math.Pow(10, float64(e)) }))
 }
